@@ -49,7 +49,7 @@ ASSUMPTIONS = [
     'Python-simulator runs without fast loading are confined to tapes of at most 900 bytes (cost), C-simulator runs cover all sizes',
 ]
 MIN_NONTRIVIAL = {'quick': 250, 'thorough': 6000}
-N_CASES = {'quick': 480, 'thorough': 16000}
+N_CASES = {'quick': 960, 'thorough': 16000}
 SLOW_PY_BYTES = 900
 MAX_ALARMS_PER_SHARD = 6
 
